@@ -100,6 +100,7 @@ def check(seed, n):
             continue
         dist[name] = dist.get(name, 0) + 1
         case = {"op": name, "args": args, "pre": pre}
+        proto.sample("pseudo", {"op": name, "args": args, "flags": pre.get("flags")})
         pre_vm = isa.mk_vm(pre)
         reqs.append("pseudo {} {} {}".format(name, w_list(args), w_vm(pre_vm, as_input=True)))
         metas.append((case, res, pre_vm))
